@@ -32,8 +32,9 @@ THEOREMS_GEN = ["Pt.LG.loopygen_sound_partial", "Pt.LG.loopygen_checks_partial",
                 "Pt.LG.loopygen_sound_partial_any_schedule", "Pt.LG.fragment_check_sound",
                 "Pt.LG.loopygen_sound_fragment", "Pt.LG.gen_sound", "Pt.LG.execStmt_store"]
 # … with reductions (a chain of reductions with constant bounds at the root of an index lambda with axes)
-THEOREMS_GEN_RED = ["Pt.LG.loopygen_sound_red_partial", "Pt.LG.fragment_check_soundR", "Pt.LG.chain_eval",
-                    "Pt.LG.genR_sound", "Pt.LG.execStmt_storeL"]
+THEOREMS_GEN_RED = ["Pt.LG.loopygen_sound_red_partial", "Pt.LG.loopygen_checks_red_partial",
+                    "Pt.LG.loopygen_sound_red_partial_any_schedule", "Pt.LG.loopygen_sound_fragmentR",
+                    "Pt.LG.fragment_check_soundR", "Pt.LG.chain_eval", "Pt.LG.genR_sound", "Pt.LG.execStmt_storeL"]
 
 
 def _prep_dedup(expr):
@@ -480,7 +481,7 @@ def run(ctx: common.Ctx):
     ctx.lean_obligations("PtProofs.C02", THEOREMS_A)
     ctx.lean_obligations("PtProofs.C01", THEOREMS_KERNEL)
     ctx.lean_obligations("PtProofs.C01GenChecks", THEOREMS_GEN)
-    ctx.lean_obligations("PtProofs.C01GenRedEx", THEOREMS_GEN_RED)
+    ctx.lean_obligations("PtProofs.C01GenRedChecks", THEOREMS_GEN_RED)
     try:
         from . import c01_kernel
     except ImportError:
